@@ -541,7 +541,46 @@ def coq_case_input(case, r, fixed=True):
 
 
 # --------------------------------------------------------------------------------------------- run
+def reset_case(first_bytes):
+    """an unauthenticated connection that is RESET by its peer (recv raises ConnectionResetError) after sending
+    `first_bytes`: nothing changes, the listener goes on, the valid message after it is delivered.  -> failure | None"""
+    dist, dec = new_dist(1)
+    dist.mark_running()
+    clock = S.FakeClock(readings=[])
+    script = ([first_bytes] if first_bytes else []) + [S.Reset()]
+    c1 = S.ScriptedClient(script, clock, origin=("10.6.6.6", 40000), clock_readings=[100, 100, 100, 101, 101])
+    good = good_message(dist._crypto)
+    c2 = S.ScriptedClient([good], clock, origin=(GOOD_ADDR, 40001), clock_readings=[200, 200, 200])
+    before = state_vector(dist)
+    mid = []
+    net = S.FakeNet([c1, c2], clock, on_accept=lambda i, cl: mid.append(state_vector(dist)) if i == 1 else None)
+    with S.installed(net, clock):
+        try:
+            dist.incoming_iterations(2)
+        except BaseException as ex:      # noqa
+            if isinstance(ex, (KeyboardInterrupt, SystemExit)):
+                raise
+            return "%s ended the accept loop after a connection reset: the listener thread is gone" % type(ex).__name__
+    if len(net.accepted) < 2:
+        return "the accept loop stopped after the reset connection (the valid client was never accepted)"
+    if mid and mid[0] != before:
+        return "the reset connection changed the instance's state"
+    try:
+        dist.dispatch()
+    except Exception as ex:              # noqa
+        return "dispatch raised %s" % type(ex).__name__
+    if not any("777" in repr(S.run_ids(u)) for u in dec.updates):
+        return "the valid message after the reset connection was not delivered"
+    return None
+
+
 def other_key_half(res):
+    for i, fb in enumerate((b"", b"abc", b"\x07" * 20, good_message(S.make_stepped(3, me=0)[0]._crypto)[:40])):
+        bad = reset_case(fb)
+        res.note_case(("reset", i), True)
+        if bad:
+            res.failures.append(dict(signature="listener-stopped-by-a-reset-connection", case=dict(reset=i, first_bytes=fb.hex()),
+                                     what="connection reset by the peer after %d bytes: %s" % (len(fb), bad), detail=None))
     for i, pair in enumerate(KEY_PAIRS):
         bad = other_key_case(pair)
         res.note_case(("other-key", i), True)
@@ -639,6 +678,10 @@ def replay(obj):
     if case.get("streaming"):
         import pC10
         return pC10.replay_stream(case)
+    if "reset" in case:
+        bad = reset_case(bytes.fromhex(case["first_bytes"]))
+        print("connection reset after %d bytes:" % (len(case["first_bytes"]) // 2), bad or "nothing changed, listener went on, valid message delivered")
+        return 1 if bad else 0
     if "other_key" in case:
         bad = other_key_case(tuple(case["keys"]))
         print("cluster key %r, forger's key %r:" % tuple(case["keys"]), bad or "forged message rejected without effect, valid one accepted")
